@@ -169,3 +169,58 @@ func (c *Chain) CosmosTx(from AccountKey, msgs ...sdk.Msg) (abci.ResponseDeliver
 
 // Codec is the application's proto codec.
 func Codec() codec.Codec { return encCfg.Codec }
+
+// ForgeMode selects how a Cosmos transaction on behalf of `claimed` is (mis)signed.
+type ForgeMode int
+
+const (
+	// ForgeOwnKey: the signer info carries the attacker's own public key and signature
+	ForgeOwnKey ForgeMode = iota
+	// ForgeClaimedKey: the signer info carries the claimed account's public key, the signature is made with the attacker's key
+	ForgeClaimedKey
+	// ForgeNoSig: no signer info and no signature at all
+	ForgeNoSig
+)
+
+// BuildCosmosTxForged builds a transaction whose messages name `claimed` as signer, but which
+// is signed (or not) by `attacker`. Account number and sequence are the claimed account's, so
+// that the signature is the only thing wrong with it.
+func (c *Chain) BuildCosmosTxForged(attacker, claimed AccountKey, mode ForgeMode, gas uint64, feeAmount sdkmath.Int, msgs ...sdk.Msg) ([]byte, error) {
+	ctx := c.Ctx()
+	txBuilder := encCfg.TxConfig.NewTxBuilder()
+	txBuilder.SetGasLimit(gas)
+	txBuilder.SetFeeAmount(sdk.Coins{{Denom: utils.BaseDenom, Amount: feeAmount}})
+	if err := txBuilder.SetMsgs(msgs...); err != nil {
+		return nil, err
+	}
+	if mode == ForgeNoSig {
+		return encCfg.TxConfig.TxEncoder()(txBuilder.GetTx())
+	}
+	var accNum, seq uint64
+	if acc := c.App.AccountKeeper.GetAccount(ctx, claimed.Acc()); acc != nil {
+		accNum, seq = acc.GetAccountNumber(), acc.GetSequence()
+	}
+	pub := attacker.Priv.PubKey()
+	if mode == ForgeClaimedKey {
+		pub = claimed.Priv.PubKey()
+	}
+	signMode := encCfg.TxConfig.SignModeHandler().DefaultMode()
+	sig := signing.SignatureV2{PubKey: pub, Data: &signing.SingleSignatureData{SignMode: signMode}, Sequence: seq}
+	if err := txBuilder.SetSignatures(sig); err != nil {
+		return nil, err
+	}
+	signerData := authsigning.SignerData{ChainID: c.W.Cfg.ChainID, AccountNumber: accNum, Sequence: seq}
+	signBytes, err := encCfg.TxConfig.SignModeHandler().GetSignBytes(signMode, signerData, txBuilder.GetTx())
+	if err != nil {
+		return nil, err
+	}
+	raw, err := attacker.Priv.Sign(signBytes)
+	if err != nil {
+		return nil, err
+	}
+	sig = signing.SignatureV2{PubKey: pub, Data: &signing.SingleSignatureData{SignMode: signMode, Signature: raw}, Sequence: seq}
+	if err := txBuilder.SetSignatures(sig); err != nil {
+		return nil, err
+	}
+	return encCfg.TxConfig.TxEncoder()(txBuilder.GetTx())
+}
